@@ -10,7 +10,7 @@ from multiprocessing import Pool
 from common import asan_stage, NCPU, WORK, Result, SplitMix, build, finish, seed, workdir
 from fsutil import (B3, MUTATING, STAGING, base_env, clear_traces, content_map, is_staging, read_traces, rmtree, run, set_mtime, shim_env, snapshot, write_file)
 
-PATH_POOL = ["f", "g", "d/h", "d/e/i", "d.x", "d/e.y", "with space", "it's", "new\nline", "é日", "-dash", "d/star*", "q?", "$x", "c", "c/x", "back\\slash", "h.txt"]
+PATH_POOL = ["f", "g", "d/h", "d/e/i", "d.x", "d/e.y", "with space", "it's", "new\nline", "é日", "-dash", "d/star*", "q?", "$x", "c", "c/x", "back\\slash", "h.txt", "d/" + "日" * 70, "p" + "é" * 104]
 SHARED_CONTENTS = [b"Z", b"Y", b"", b"X" * 3000, b"W" * 70000]
 CONFLICT_RE = re.compile(r"^(.*)\.conflict-vh-([0-9a-f]{12})$", re.S)
 
@@ -102,6 +102,10 @@ def gen_history(rng, hostile=True, clash_ok=True):
             steps.append(("w", "A", p, content("A", 0)))
         elif k == 3:
             steps.append(("w", "B", p, content("B", 0)))
+    if rng.chance(1, 4):
+        # things that are not regular files and live in a replica anyway (nobody's to sync or delete)
+        for i in range(rng.range(1, 2)):
+            steps.append(("ex", "A" if rng.chance(1, 2) else "B", rng.pick(["zz.extra-%d" % i, "d/zz.extra-%d" % i]), rng.pick(["dangling", "loop", "emptydir", "fifo"])))
     n = rng.range(3, 14)
     syncs = 0
     for i in range(1, n + 1):
@@ -202,6 +206,22 @@ def apply_step(sb, step, mtime_of=None):
         except OSError:
             pass
         return None
+    if kind == "ex":
+        _, side, p, what = step
+        full = os.path.join(sb.side(side), p)
+        try:
+            os.makedirs(os.path.dirname(full), exist_ok=True)
+            if what == "dangling":
+                os.symlink("no-such-target", full)
+            elif what == "loop":
+                os.symlink(os.path.basename(full), full)
+            elif what == "emptydir":
+                os.makedirs(full)
+            else:
+                os.mkfifo(full)
+        except OSError:
+            pass
+        return None
     if kind == "ro":
         _, side, p = step
         try:
@@ -241,7 +261,7 @@ def apply_step(sb, step, mtime_of=None):
 
 def swap_step(step):
     sw = {"A": "B", "B": "A"}
-    if step[0] in ("w", "d", "wc", "rc", "ro"):
+    if step[0] in ("w", "d", "wc", "rc", "ro", "ex"):
         return (step[0], sw[step[1]]) + tuple(step[2:])
     return step
 
@@ -926,7 +946,24 @@ def c07_repointed_links(wroot, rng, tag):
     r1 = run(["bisync", A, B], env)
     if "Bidirectional sync complete" not in r1.stdout:
         return None
-    which = rng.pick(["both", "A", "B"])
+    which = rng.pick(["both", "A", "B", "relative-names-other-cwd", "relative-names-other-cwd"])
+    cwd2 = None
+    argv2 = ["bisync", A, B]
+    if which == "relative-names-other-cwd":
+        # the same two relative names, resolved from another working directory
+        rmtree(root)
+        os.makedirs(home)
+        for nm in ("p1/A", "p1/B", "p2/A", "p2/B"):
+            os.makedirs(os.path.join(root, nm))
+        for nm in ("p1/A", "p1/B"):
+            write_file(os.path.join(root, nm, "report.txt"), shared)
+            write_file(os.path.join(root, nm, "notes"), b"notes v0")
+        r1 = run(["bisync", "A", "B"], env, cwd=os.path.join(root, "p1"))
+        if "Bidirectional sync complete" not in r1.stdout:
+            return None
+        cwd2 = os.path.join(root, "p2")
+        argv2 = ["bisync", rng.pick(["A", "./A", "A/"]), rng.pick(["B", "./B", "B/."])]
+        A, B = os.path.join(cwd2, "A"), os.path.join(cwd2, "B")
     if which in ("both", "A"):
         os.unlink(A)
         os.symlink("x2", A)
@@ -942,7 +979,7 @@ def c07_repointed_links(wroot, rng, tag):
     write_file(os.path.join(one, "notes"), b"notes v1 on one side")
     write_file(os.path.join(other, "notes"), b"notes v2 on the other side")
     pre = {"A": content_map(snapshot(a_dir)), "B": content_map(snapshot(b_dir))}
-    r2 = run(["bisync", A, B], env)
+    r2 = run(argv2, env, cwd=cwd2)
     post = {"A": content_map(snapshot(a_dir)), "B": content_map(snapshot(b_dir))}
     label = {"repointed": which, "run": r2.brief()}
     for sd in "AB":
